@@ -10,7 +10,6 @@ NOT_APPLICABLE = {
     'C02': 'allocation-complexity / Rc strong-count property; not expressible as a pre/postcondition in the installed verifiers',
     'C04': 'needs relational contracts over ~350 hand-written Builtin impls built from closures, dyn dispatch and iterator adapters; outside Verus\' subset and Kani\'s reach',
     'C05': 'whole-program equivalence with a reference interpreter over Rc<RefCell<Env>>; no per-function contract expresses it',
-    'C15': 'lexer/parser run on Peekable<Chars>/str/recursive AST construction, which Verus rejects and Kani cannot bound',
     'C17': 'translation validation of a tree rewrite against whole-interpreter semantics; no function contract expresses it',
 }
 
